@@ -50,7 +50,12 @@ const A_BODY = [
   '  }',
   '  return acc',
   '}',
-  'module.exports = { a1, a2, a3, a4, a5, a6 }'
+  '',
+  'function a7(x) {',
+  "  const m = x + '\\n    at inner (/somewhere/else.js:1:1)'",
+  '  throw new Error(m) /*@a7*/',
+  '}',
+  'module.exports = { a1, a2, a3, a4, a5, a6, a7 }'
 ]
 const B_BODY = [
   'function b1(x) {',
@@ -99,10 +104,11 @@ const CALLS = {
   a4: (m) => m.a4('t'),
   a5: (m) => m.a5('c', function driverCallback () { throw new Error('a5') }),
   a6: (m) => m.a6('k'),
+  a7: (m) => m.a7('wrapped: Error: inner'),
   b1: (m) => m.b1(' q ')
 }
 // top-frame site of each call (null: the top frame is not in the rewritten file)
-const TOP = { a1: 'a1', a2: 'a2', a3: null, a4: 'a4', a5: null, a6: 'a6', b1: 'b1' }
+const TOP = { a1: 'a1', a2: 'a2', a3: null, a4: 'a4', a5: null, a6: 'a6', a7: 'a7', b1: 'b1' }
 
 function load (file, content) {
   const mod = { exports: {} }
@@ -166,7 +172,8 @@ function judge (main, exportsObj, fileInfo, expect, v, where, notes) {
     // --- path 2: V8's string, rewritten line by line ---
     const dl = def.stack.split('\n'); const sl = str.stack.split('\n')
     if (dl.length !== sl.length) { v('string-line-count', name, `${where}: formatted stack has ${sl.length} lines, V8's has ${dl.length}`); continue }
-    const firstAt = dl.findIndex((l) => /^\s*at /.test(l))
+    // the frames are the LAST raw.stack.length lines (a message may itself contain lines that look like frames)
+    const firstAt = dl.length - raw.stack.length
     dl.forEach((d, li) => {
       const s = sl[li]
       if (li < firstAt) { if (s !== d) v('string-header-changed', name, `${where}: message line changed`); return }
